@@ -49,6 +49,7 @@ theorem guarded_load_never_panics (g : Graph) (tolerant : Bool) :
       split
       · simp
       · simp
+      · simp
       · rename_i tag fields hg
         apply fold_ne g tolerant (load g tolerant fuel (k :: chain)) .panic (fieldOutcome_ne_panic g tolerant) fields (.ok ()) (by simp)
         intro f _
@@ -74,6 +75,7 @@ theorem load_fuel_succ (g : Graph) (tol : Bool) :
       rename_i hlen
       simp only [hlen, if_false] at h
       split
+      · rfl
       · rfl
       · rfl
       · rename_i tag fields hg
@@ -102,14 +104,18 @@ theorem load_depth_bounded (g : Graph) (tolerant : Bool) (k : Nat) :
 
 /-- non-vacuity: a page whose /Parent is a /Pages node whose /Parent is the page: the guard answers
     "Recursive reference" (strict), and tolerant mode turns the optional /Parent into `None` -/
-example : load [.node 1 [⟨1, false, some 0⟩], .node 0 [⟨0, true, some 0⟩]] false 3 [] 0 = .err := by decide
-example : load [.node 1 [⟨1, false, some 0⟩], .node 0 [⟨0, true, some 0⟩]] true 3 [] 0 = .ok () := by decide
+example : load [.node 1 [⟨1, false, some 0, false⟩], .node 0 [⟨0, true, some 0, false⟩]] false 3 [] 0 = .err := by decide
+example : load [.node 1 [⟨1, false, some 0, false⟩], .node 0 [⟨0, true, some 0, false⟩]] true 3 [] 0 = .ok () := by decide
+/-- a list element (`/DescendantFonts [0 0 R]`) that refers to a missing object is skipped in strict mode too
+    (D38 repaired: a reference to an undefined object is the null object); a malformed target still fails -/
+example : load [.missing, .node 0 [⟨0, false, none, true⟩]] false 3 [] 1 = .ok () := by decide
+example : load [.bad, .node 0 [⟨0, false, none, true⟩]] false 3 [] 1 = .err := by decide
 /-- a self-referencing required field is an error in both modes; an acyclic chain loads -/
-example : load [.node 0 [⟨0, false, none⟩]] true 2 [] 0 = .err := by decide
-example : load [.node 0 [⟨1, false, none⟩, ⟨2, false, none⟩], .node 0 [⟨2, false, none⟩], .node 0 []] false 4 [] 0 = .ok () := by decide
+example : load [.node 0 [⟨0, false, none, false⟩]] true 2 [] 0 = .err := by decide
+example : load [.node 0 [⟨1, false, none, false⟩, ⟨2, false, none, false⟩], .node 0 [⟨2, false, none, false⟩], .node 0 []] false 4 [] 0 = .ok () := by decide
 /-- a chain of 64 distinct objects that each load the next one still loads; a chain of 65 does not -/
-example : load ((List.range 63).map (fun i => Obj.node 0 [⟨i + 1, false, none⟩]) ++ [.node 0 []]) false 65 [] 0 = .ok () := by decide +kernel
-example : load ((List.range 64).map (fun i => Obj.node 0 [⟨i + 1, false, none⟩]) ++ [.node 0 []]) false 65 [] 0 = .err := by decide +kernel
+example : load ((List.range 63).map (fun i => Obj.node 0 [⟨i + 1, false, none, false⟩]) ++ [.node 0 []]) false 65 [] 0 = .ok () := by decide +kernel
+example : load ((List.range 64).map (fun i => Obj.node 0 [⟨i + 1, false, none, false⟩]) ++ [.node 0 []]) false 65 [] 0 = .err := by decide +kernel
 
 -- ===================================================================================================
 -- 2. objects whose value is a reference (D32)
